@@ -81,6 +81,21 @@ func VerifC14Takeover() {
 			vAssert("v3-takeover-sends-at-most-a-disconnect", len(wt.Pkts) == 0 || (len(wt.Pkts) == 1 && wt.Pkts[0].Type == packets.Disconnect))
 		}
 	}
+	// a further connection with Clean Start 1: nothing of the (possibly resumed) session may survive
+	if vParam("THIRD", 1) == 1 && len(w2.Pkts) >= 1 {
+		c3 := vDial(s, vConnOpts{ver: nv, id: "c1", clean: true, keepalive: 60, rm: 5})
+		w3 := vParseWire(vConnWritten(c3), nv)
+		vAssert("third-connection-connack", len(w3.Pkts) >= 1 && w3.Pkts[0].Type == packets.Connack)
+		if len(w3.Pkts) >= 1 {
+			vAssert("clean-start-1-never-reports-session-present", !w3.Pkts[0].Session)
+		}
+		s.publishToSubscribers(packets.Packet{FixedHeader: packets.FixedHeader{Type: packets.Publish, Qos: 0}, TopicName: "t", Payload: []byte{3}, Origin: "pub"})
+		vDrain()
+		vAssert("nothing-of-the-previous-session-survives-clean-start-1", vCountPublishes(c3, nv, "t") == 0)
+		subs := s.Topics.Subscribers("t")
+		_, ghost := subs.Subscriptions["c1"]
+		vAssert("no-subscription-left-in-the-index-after-clean-start-1", !ghost)
+	}
 	if vParam("WF", 0) == 1 {
 		vAssertWellFormed(vParseWire(vConnWritten(c2), nv), nv, 0)
 		if existed {
